@@ -297,6 +297,7 @@ for cls, mod in (('Socket', 'socket'), ('AsyncSocket', 'async_socket')):
     c.ensures('close-after-close-is-noop', "implies(pkt.packet_type == 1 and "
               "(old(self.closed) or old(self.closing)), " + QUIET + ")", props=['C05'])
     c.ensures('queue-wf', 'self.queue.unf >= len(self.queue.items)')
+    c.ensures('closed-implies-closing-kept', 'implies(implies(old(self.closed), old(self.closing)), implies(self.closed, self.closing))', props=['C05'])
     c.ensures('taken-unchanged', 'self.queue.taken == old(self.queue.taken)')
     c.modifies(*SOCK_MOD)
     if c.qualnames[0].endswith('.receive'):
@@ -408,13 +409,13 @@ for _cls, _mod in (('Socket', 'socket'), ('AsyncSocket', 'async_socket')):
               'events == old(events) and hresults == old(hresults))', props=['C06', 'C03'])
     c.ensures('direct-websocket-mode', 'implies(not old(self.connected), self.connected and '
               'self.upgraded)', props=['C06'])
-    # (closing or closed: that closed implies closing is not part of the loop invariant)
-    c.ensures('ends-closed', 'implies(self.upgraded, self.closing or self.closed)', props=['C05'])
+    c.ensures('ends-closed', 'implies(self.upgraded, self.closing)', props=['C05'])
     if _cls == 'Socket':
         c.ensures('result-empty', 'result == []')
     c.modifies(*WS_MOD)
     c.loop(1 if _cls == 'Socket' else 0, invariants=[
         ('steady-state', 'self.upgraded and not self.upgrading and self.connected'),
+        ('closed-implies-closing', 'implies(self.closed, self.closing)'),
         ('events-only-grow', 'grows(events, old(events))'),
         ('spawned-only-grow', 'grows(spawned, old(spawned))'),
         ('queue-wf', 'self.queue.unf >= len(self.queue.items)'),
